@@ -24,6 +24,8 @@ struct Sent {
     t: u64,
     res: Res,
     probe: bool,
+    /// remote port the datagram carrying the packet was addressed to (network tap)
+    port: Option<u16>,
 }
 
 #[derive(Default)]
@@ -49,6 +51,8 @@ struct PendingLoss {
 struct Conn {
     spaces: [SpaceSt; 3],
     metrics: HashMap<u64, Metrics>,
+    /// path id -> remote port (Started, PathCreated, ActivePath events)
+    path_port: HashMap<u64, u16>,
     pending: Vec<PendingLoss>,
     /// global min of min_rtt and max of latest_rtt per path (range of samples)
     rtt_lo: HashMap<u64, u64>,
@@ -171,6 +175,15 @@ impl Monitor for C09 {
         }
         let c = self.conns.entry((ep, conn)).or_default();
         match e {
+            Evt::Started { remote_port, .. } => {
+                c.path_port.insert(0, *remote_port);
+            }
+            Evt::PathCreated { path_id, remote_port } => {
+                c.path_port.insert(*path_id, *remote_port);
+            }
+            Evt::ActivePath { remote_port, path_id } => {
+                c.path_port.insert(*path_id, *remote_port);
+            }
             Evt::PacketSent {
                 space, pn, probe, ..
             } => {
@@ -180,6 +193,7 @@ impl Monitor for C09 {
                         t,
                         res: Res::Outstanding,
                         probe: *probe,
+                        port: None,
                     },
                 );
                 if *probe {
@@ -287,16 +301,37 @@ impl Monitor for C09 {
                         }
                         st.res = Res::Lost;
                         let t_sent = st.t;
-                        c.pending.push(PendingLoss {
+                        // The event names the path the ACK arrived on, not the path the packet
+                        // was sent on (recovery/manager.rs builds it from `current_path_id`).
+                        // The packet has to be judged against the estimates of ITS path: the
+                        // one whose remote port the network tap saw the packet leave for.
+                        let sent_path = st.port.and_then(|port| {
+                            c.path_port.iter().filter(|(_, p)| **p == port).map(|(id, _)| *id).max()
+                        });
+                        let l = PendingLoss {
                             space: *space,
                             pn: *pn,
                             t,
                             t_sent,
                             largest_acked: la,
-                            path_id: *path_id,
+                            path_id: sent_path.unwrap_or(*path_id),
                             mtu_probe: *mtu_probe,
-                            metrics_before: c.metrics.get(path_id).cloned(),
-                        });
+                            metrics_before: c.metrics.get(&sent_path.unwrap_or(*path_id)).cloned(),
+                        };
+                        match sent_path {
+                            Some(sp) if sp != *path_id => {
+                                // an ACK on another path does not touch this path's RTT
+                                // estimate: judge right away with what is known about it
+                                cx.summary.count("c09.loss_declared_via_other_path", 1);
+                                cx.feature("loss_across_paths");
+                                if l.metrics_before.is_some() {
+                                    Self::judge(cx, ep, conn, &l, None);
+                                } else {
+                                    cx.summary.count("c09.loss_without_metrics", 1);
+                                }
+                            }
+                            _ => c.pending.push(l),
+                        }
                     }
                 }
             }
@@ -363,6 +398,20 @@ impl Monitor for C09 {
                 }
             }
             _ => {}
+        }
+    }
+
+    fn on_wire(&mut self, _cx: &mut Ctx, w: &Wire, _fate: &Fate) {
+        if w.injected {
+            return;
+        }
+        let Some(src) = w.src else { return };
+        for (conn, space, pn) in &w.pkts {
+            if let Some(c) = self.conns.get_mut(&(src, *conn)) {
+                if let Some(st) = c.spaces[space.idx()].sent.get_mut(pn) {
+                    st.port = Some(w.dst_port);
+                }
+            }
         }
     }
 
